@@ -349,14 +349,11 @@ Definition shortest_digits_ref (f : f64) : list Z * Z :=
    of delta; only their floor/ceiling in units of D are needed because every
    candidate is an integer number of units. *)
 
-(* floor (x / d) for d > 0; linear search when the quotient is tiny *)
-Fixpoint sfd_loop (fuel : nat) (x d q : Z) : Z :=
-  match fuel with
-  | O => x / d
-  | S f => if x <? (q + 1) * d then q else sfd_loop f x d (q + 1)
-  end.
+(* floor (x / d) for d > 0 *)
 Definition small_fdiv (x d : Z) : Z :=
-  if (- (64 * d) <=? x) && (x <? 64 * d) then sfd_loop 128 x d (-64) else x / d.
+  if 0 <=? x then fst (Zfast_div_eucl x d)
+  else let '(q, r) := Zfast_div_eucl (- x) d in
+       if r =? 0 then - q else - q - 1.
 
 Fixpoint sdJ_loop (fuel : nat) (n J : Z) (T : Z) (rem_zero : bool) (cmp0 : comparison)
          (Lf Lc Hf Hc : Z) (incl : bool) (dp : Z) : list Z * Z :=
@@ -408,7 +405,7 @@ Definition shortest_digits (f : f64) : list Z * Z :=
       let mul := if 0 <=? k then 1 else 10 ^ (- k) in
       let D := if 0 <=? k then den * 10 ^ k else den in
       let delta := sc * mul in
-      let '(T, rem) := Z.div_eucl (C * mul) D in
+      let '(T, rem) := Zfast_div_eucl (C * mul) D in
       let J := if T <? 100000000000000000 then 17
                else if T <? 1000000000000000000 then 18 else 19 in
       let dp := dp' + (J - 18) in
@@ -489,3 +486,142 @@ Definition format_float_json (f : f64) : string :=
     negb (f64_is_zero a) &&
     (f64_ltb a (f64_of_dec false 1 (-6)) || f64_leb (f64_of_dec false 1 21) a) in
   if use_e then json_exp_cleanup (format_float_e f) else format_float_f f.
+
+(* ======================================================================= *)
+(* FormatInt / ParseInt round trip (base 10)                                *)
+(* ======================================================================= *)
+
+Definition is_dig (d : Z) : Prop := 0 <= d <= 9.
+
+Lemma digit_char_props : forall d, is_dig d ->
+  is_digit (digit_char d) = true /\ cz (digit_char d) = 48 + d.
+Proof.
+  intros d H. unfold is_dig in H.
+  assert (Hc : d = 0 \/ d = 1 \/ d = 2 \/ d = 3 \/ d = 4 \/ d = 5 \/ d = 6 \/
+               d = 7 \/ d = 8 \/ d = 9) by lia.
+  repeat (destruct Hc as [Hc|Hc]; [subst d; vm_compute; auto|]).
+  subst d; vm_compute; auto.
+Qed.
+
+Lemma digit_char_not_sign : forall d, is_dig d -> is_sign (digit_char d) = false.
+Proof.
+  intros d H. destruct (digit_char_props d H) as [_ Hc]. unfold is_dig in H.
+  unfold is_sign. rewrite Hc.
+  apply orb_false_iff; split; apply Z.eqb_neq; lia.
+Qed.
+
+Lemma pu_loop_digits : forall l, Forall is_dig l -> forall acc,
+  pu_loop 10 false (str_of_digits l) acc false
+  = Some (fold_left (fun a d => a * 10 + d) l acc, false).
+Proof.
+  induction 1 as [|x l Hx Hl IH]; intros acc.
+  - reflexivity.
+  - destruct (digit_char_props x Hx) as [Hd Hc].
+    unfold str_of_digits in *. cbn [map str_of_list pu_loop fold_left].
+    rewrite andb_false_r, Hd, Hc.
+    replace (48 + x - 48) with x by lia.
+    replace (x <? 10) with true by (symmetry; apply Z.ltb_lt; unfold is_dig in Hx; lia).
+    apply IH.
+Qed.
+
+Definition dvalue (l : list Z) : Z := fold_left (fun a d => a * 10 + d) l 0.
+
+Lemma parse_uint_digits : forall l, l <> [] -> Forall is_dig l ->
+  parse_uint_raw 10 (str_of_digits l) = Some (dvalue l).
+Proof.
+  intros [|x l] Hne Hall; [congruence|].
+  pose proof (pu_loop_digits (x :: l) Hall 0) as Hp.
+  unfold str_of_digits in *. cbn [map str_of_list] in *.
+  unfold parse_uint_raw.
+  change (10 =? 0) with false. cbv iota beta.
+  change ((2 <=? 10) && (10 <=? 36)) with true. cbv iota.
+  rewrite Hp. reflexivity.
+Qed.
+
+Lemma digits_rev_spec : forall fuel n, 0 <= n < 2 ^ Z.of_nat fuel ->
+  fold_right (fun d a => a * 10 + d) 0 (digits_rev fuel n) = n /\
+  Forall is_dig (digits_rev fuel n).
+Proof.
+  induction fuel as [|f IH]; intros n Hn.
+  - change (2 ^ Z.of_nat 0) with 1 in Hn. assert (n = 0) by lia. subst n.
+    split; [reflexivity | constructor].
+  - cbn [digits_rev]. destruct (n <? 10) eqn:Hlt.
+    + apply Z.ltb_lt in Hlt. split; [cbn; lia | repeat constructor; unfold is_dig; lia].
+    + apply Z.ltb_ge in Hlt.
+      rewrite Nat2Z.inj_succ, Z.pow_succ_r in Hn by lia.
+      assert (Hq : 0 <= n / 10 < 2 ^ Z.of_nat f).
+      { generalize dependent (2 ^ Z.of_nat f). intros P HP.
+        Z.to_euclidean_division_equations; lia. }
+      destruct (IH (n / 10) Hq) as [Hv Hf].
+      split.
+      * cbn [fold_right]. rewrite Hv.
+        Z.to_euclidean_division_equations; lia.
+      * constructor; [|exact Hf]. unfold is_dig.
+        Z.to_euclidean_division_equations; lia.
+Qed.
+
+Lemma dec_digits_list_spec : forall n, 0 <= n ->
+  dec_digits_list n <> [] /\ Forall is_dig (dec_digits_list n) /\
+  dvalue (dec_digits_list n) = n.
+Proof.
+  intros n Hn. unfold dec_digits_list.
+  set (fuel := S (Z.to_nat (Z.log2 n))).
+  assert (Hb : 0 <= n < 2 ^ Z.of_nat fuel).
+  { subst fuel. rewrite Nat2Z.inj_succ, Z2Nat.id by apply Z.log2_nonneg.
+    destruct (Z.eq_dec n 0) as [->|Hnz]; [vm_compute; split; congruence|].
+    pose proof (Z.log2_spec n ltac:(lia)). lia. }
+  destruct (digits_rev_spec fuel n Hb) as [Hv Hf].
+  split; [|split].
+  - intros Hrev. apply (f_equal (@rev Z)) in Hrev. rewrite rev_involutive in Hrev.
+    subst fuel. cbn [digits_rev] in Hrev. destruct (n <? 10); discriminate.
+  - apply Forall_rev; exact Hf.
+  - unfold dvalue.
+    pose proof (fold_left_rev_right (fun d a => a * 10 + d)
+                  (rev (digits_rev fuel n)) 0) as Hfr.
+    rewrite rev_involutive in Hfr. cbv beta in Hfr. rewrite <- Hfr. exact Hv.
+Qed.
+
+Lemma parse_int_neg_shape : forall body,
+  parse_int 10 64 (String "-" body) =
+  match parse_uint_raw 10 body with
+  | None => None
+  | Some un => if un <=? 9223372036854775808 then Some (- un) else None
+  end.
+Proof. reflexivity. Qed.
+
+Lemma parse_int_pos_shape : forall c r, is_sign c = false ->
+  parse_int 10 64 (String c r) =
+  match parse_uint_raw 10 (String c r) with
+  | None => None
+  | Some un => if un <? 9223372036854775808 then Some un else None
+  end.
+Proof.
+  intros c r Hs. unfold parse_int. rewrite Hs.
+  unfold is_sign in Hs. apply orb_false_iff in Hs. destruct Hs as [_ Hs].
+  rewrite Hs. reflexivity.
+Qed.
+
+Theorem parse_int_format_int : forall z,
+  in_int64 z = true -> parse_int 10 64 (format_int z) = Some z.
+Proof.
+  intros z Hz. unfold in_int64, min_int64, max_int64 in Hz.
+  apply andb_true_iff in Hz. destruct Hz as [Hlo Hhi].
+  apply Z.leb_le in Hlo. apply Z.leb_le in Hhi.
+  unfold format_int. destruct (z <? 0) eqn:Hneg.
+  - apply Z.ltb_lt in Hneg.
+    destruct (dec_digits_list_spec (- z) ltac:(lia)) as (Hne & Hf & Hv).
+    rewrite parse_int_neg_shape. unfold format_nat.
+    rewrite (parse_uint_digits _ Hne Hf), Hv.
+    replace (- z <=? 9223372036854775808) with true by (symmetry; apply Z.leb_le; lia).
+    rewrite Z.opp_involutive. reflexivity.
+  - apply Z.ltb_ge in Hneg.
+    destruct (dec_digits_list_spec z Hneg) as (Hne & Hf & Hv).
+    unfold format_nat.
+    pose proof (parse_uint_digits _ Hne Hf) as Hp.
+    destruct (dec_digits_list z) as [|d l] eqn:Hl; [congruence|].
+    assert (Hd : is_dig d) by (inversion Hf; assumption).
+    unfold str_of_digits in *. cbn [map str_of_list] in *.
+    rewrite (parse_int_pos_shape _ _ (digit_char_not_sign d Hd)), Hp, Hv.
+    replace (z <? 9223372036854775808) with true by (symmetry; apply Z.ltb_lt; lia).
+    reflexivity.
+Qed.
